@@ -9,7 +9,7 @@ Variables A B : stage.
 
 (* the per-cycle inputs that A resp. B see inside the composition *)
 Definition upc (sa : st A) (sb : st B) (c : cyc) : cyc :=
-  mkCyc (c_ctl c) (c_in c) (bwd B sb (c_ctl c) (c_rdy c)).
+  mkCyc (c_ctl c) (c_in c) (bwd B sb (c_ctl c) (fwd A sa (c_ctl c) (c_in c)) (c_rdy c)).
 Definition midc (sa : st A) (sb : st B) (c : cyc) : cyc :=
   mkCyc (c_ctl c) (fwd A sa (c_ctl c) (c_in c)) (c_rdy c).
 
